@@ -68,6 +68,8 @@ fn opcode(op: &Op) -> u64 {
         Op::Stop => 34,
         Op::Retarget(..) => 35,
         Op::StreamBurst(_) => 36,
+        Op::EnableAgain(_) => 37,
+        Op::UnwrapChild(..) => 38,
     }
 }
 
@@ -566,6 +568,83 @@ pub fn exec_op(op: &Op, ctx: Ctx) {
         Op::Send(sel) => {
             let Some(uid) = w(|w| resolve_any(w, *sel, ctx, &|s| matches!(s.spec.kind, Kind::Chan { .. }) && !s.senders.is_empty())) else { return };
             send(uid);
+        }
+        Op::UnwrapChild(sel, k) => {
+            if ctx != Ctx::Outside || w(|w| w.in_dispatch) {
+                return;
+            }
+            let Some(uid) = w(|w| resolve(w, *sel, ctx, &|s| matches!(s.spec.kind, Kind::Comp { transient: false, .. }) && s.st == St::Enabled && s.registered && !s.in_process && s.disp.is_some() && s.fds.iter().filter(|c| c.child == ChildSt::Kept).count() >= 2)) else {
+                return;
+            };
+            w(|w| {
+                let s = &mut w.srcs[uid];
+                let live: Vec<usize> = s.fds.iter().enumerate().filter(|(_, c)| c.child == ChildSt::Kept).map(|(i, _)| i).collect();
+                let i = live[*k as usize % live.len()];
+                let taken = match s.disp.as_ref() {
+                    Some(DispZ::N(d)) => match &mut d.as_source_mut().inner {
+                        Inner::Comp(_, cs) => Some(std::mem::replace(&mut cs[i], Child::Taken)),
+                        _ => None,
+                    },
+                    Some(DispZ::L(d)) => match &mut d.as_source_mut().inner {
+                        Inner::Comp(_, cs) => Some(std::mem::replace(&mut cs[i], Child::Taken)),
+                        _ => None,
+                    },
+                    None => None,
+                };
+                if let Some(Child::Plain(g)) = taken {
+                    // the user gets the fd back and keeps it open: it must be out of the poller from now on
+                    let mut fdx = g.unwrap();
+                    if let Some(fd) = fdx.owned.take() {
+                        w.kept_fds.push(fd);
+                    }
+                    let s = &mut w.srcs[uid];
+                    s.fds[i].child = ChildSt::Gone;
+                    s.sparse_sub_ids = true;
+                    s.fds[i].child_pending = ChildSt::Kept;
+                    s.fds[i].armed = false;
+                    s.fds[i].edge_pending = false;
+                    w.count("op_unwrap_child");
+                    w.tr(|| format!("composite #{} unwraps its sub-source {}", uid, i));
+                }
+            });
+        }
+        Op::EnableAgain(sel) => {
+            let Some((uid, tok)) = w(|w| {
+                resolve(w, *sel, ctx, &|s| {
+                    s.st == St::Enabled
+                        && s.registered
+                        && !s.in_process
+                        && Some(s.uid) != running
+                        && s.spec.fault.is_none()
+                        && matches!(s.spec.kind, Kind::Ping | Kind::Chan { .. } | Kind::Exec | Kind::Stream | Kind::Gen { .. })
+                        && s.fds.iter().all(|c| c.child == ChildSt::Kept)
+                })
+                .and_then(|u| w.srcs[u].token.map(|t| (u, t)))
+            }) else {
+                return;
+            };
+            let before = snapshot(&h);
+            let prev = w(|w| {
+                w.count("op_enable_again");
+                w.tr(|| format!("enable(#{}) although it is enabled", uid));
+                std::mem::replace(&mut w.reg_ctx, RegCtx::Op(uid))
+            });
+            let r = h.enable(&tok);
+            let after = snapshot(&h);
+            w(|w| {
+                w.reg_ctx = prev;
+                match r {
+                    Err(e) if is_invalid_token(&e) => w.alarm("C07.token_stays_valid", "enable-invalid-token", format!("enable(#{}) of an enabled source returned InvalidToken", uid)),
+                    Err(_) => {
+                        w.count("enable_again_rejected");
+                        super::build::check_as_if_not_made(w, &format!("rejected enable() of the enabled source #{}", uid), &before, &after);
+                    }
+                    Ok(()) => {
+                        w.alarm("C16.exact", "enabled-source-not-registered", format!("enable() of the enabled source #{} was accepted by the poller: its fd was not registered", uid));
+                        w.srcs[uid].st = St::Limbo;
+                    }
+                }
+            });
         }
         Op::RegisterAgain(sel) => {
             // only sources with an fd of their own in the poller (the kernel rejects the duplicate), enabled, and
